@@ -154,6 +154,11 @@ func execPubSub(t *trace, script []string) {
 			go func() {
 				defer wg.Done()
 				defer sendersWG.Done()
+				defer func() {
+					if r := recover(); r != nil {
+						log.Add("panic s%d %s", a, strings.ReplaceAll(fmt.Sprint(r), " ", "_"))
+					}
+				}()
 				reg(fmt.Sprintf("s%d", a))
 				close(ready)
 				rounds := 1 + r.Intn(4)
@@ -176,6 +181,11 @@ func execPubSub(t *trace, script []string) {
 			ready := make(chan struct{})
 			go func() {
 				defer wg.Done()
+				defer func() {
+					if r := recover(); r != nil {
+						log.Add("panic %s %s", name, strings.ReplaceAll(fmt.Sprint(r), " ", "_"))
+					}
+				}()
 				reg(name)
 				close(ready)
 				rounds := 1 + r.Intn(3)
